@@ -1,14 +1,20 @@
 (* C10 - Subscriptions and the event bus shut down cleanly under any timing.
-   Theorems only; the models are Bus/Bus.v (internal/minibus/bus.go as a transition system over
-   atomic steps of goroutines) and Bus/Pipe.v (the goroutines between a listener channel and
-   the consumer); proofs live in Bus/BusProofs.v and Bus/PipeProofs.v.
-   Every theorem quantifies over all schedules: [run (init n) tr = Some c] says that tr is an
-   arbitrary sequence of atomic steps (any interleaving of any number of senders, listeners,
-   cancels and consumers) executable from the empty bus with n sender threads. *)
-From SC Require Import Base.Prelude Bus.Bus Bus.BusProofs.
+   Theorems only.  Models: Bus/Bus.v (internal/minibus/bus.go as a transition system over the
+   atomic steps of its goroutines) and Bus/Pipe.v (the goroutines between a listener channel and
+   the consumer: DropExcess, mergeCollectionExcess, the forwarders of Value.Pull, Collection.Pull
+   and Collection.PullID).  Proofs: Bus/BusProofs.v, Bus/PipeProofs.v.
 
-(* no goroutine is ever blocked sending on a closed channel (which would panic when it is
-   closed) and no rendezvous ever targets a closed channel *)
+   Every theorem quantifies over ALL schedules: [run (init n) tr = Some c] says that tr is an
+   arbitrary executable sequence of atomic steps - any interleaving of any number of listeners,
+   n sender threads, cancels of listen and send contexts, consumers that receive or do not - from
+   the empty bus.  Fairness is never assumed silently: the liveness statements are given as a
+   measure that every step of a named set of goroutines decreases, that no step increases, and
+   that is positive only while one of those goroutines is enabled. *)
+From SC Require Import Base.Prelude Bus.Bus Bus.Pipe Bus.BusProofs Bus.PipeProofs.
+
+(* ---- no send on a closed channel ---- *)
+(* no goroutine is ever blocked sending on a closed channel (which would panic at the close)
+   and no rendezvous ever targets a closed channel *)
 Theorem C10_no_send_on_closed : forall n tr c,
   run (init n) tr = Some c ->
   panics c = false /\
@@ -18,7 +24,92 @@ Theorem C10_no_send_on_closed : forall n tr c,
 Proof. exact no_send_on_closed. Qed.
 Print Assumptions C10_no_send_on_closed.
 
+(* a channel is closed only by its own cancel *)
+Theorem C10_closed_only_after_cancel : forall n tr c k K,
+  run (init n) tr = Some c -> nth_error (ls c) k = Some K -> l_closed K = true -> l_cancel K = true.
+Proof. exact closed_only_after_cancel. Qed.
+Print Assumptions C10_closed_only_after_cancel.
+
+(* ---- cancel closes the listener channel, whatever everybody else does ----
+   mu k: 2N+3 / 2N+2 while the watcher has not yet asked for the lock, 1 + (senders inside the
+   select of k) while it waits for it, 0 when it has closed the channel and ended.
+   (1) no step of anybody increases mu k and every helper step (the watcher of k; a sender
+       leaving the select of k while the watcher waits) decreases it;
+   (2) while mu k > 0 a helper step is enabled - nothing other goroutines do or fail to do
+       (consumers that stopped receiving, blocked or cancelled senders) can block the shutdown;
+   (3) mu k = 0 iff the watcher has ended and the channel is closed;
+   (4) along any continuation, after mu k helper steps the channel is closed.
+   Weak fairness (an enabled goroutine is eventually scheduled) turns (1)-(4) into "eventually
+   closed"; the Go scheduler itself is outside the model. *)
+Theorem C10_cancel_closes : forall n tr c k K,
+  run (init n) tr = Some c -> nth_error (ls c) k = Some K -> l_cancel K = true ->
+  (forall a c', step c a = Some c' ->
+     (mu k c' <= mu k c)%nat /\ (helper k c a = true -> (mu k c' < mu k c)%nat)) /\
+  ((mu k c > 0)%nat -> exists a c', helper k c a = true /\ step c a = Some c') /\
+  (mu k c = 0%nat <-> (l_w K = WDone /\ l_closed K = true)) /\
+  (forall tr' c', run c tr' = Some c' -> (helper_steps k c tr' >= mu k c)%nat ->
+     exists K', nth_error (ls c') k = Some K' /\ l_w K' = WDone /\ l_closed K' = true).
+Proof. exact cancel_closes. Qed.
+Print Assumptions C10_cancel_closes.
+
+(* ---- the goroutines behind a subscription all end once the listener channel is closed ----
+   every schedule of the chain after the close is at most pmeasure long (so no fairness is
+   needed at all: whatever runs, runs out) ... *)
+Theorem C10_pipe_terminates : forall tr p p',
+  p_src_closed p = true -> p_cancel p = true -> prun p tr = Some p' ->
+  (List.length tr + pmeasure p' <= pmeasure p)%nat.
+Proof. exact (pipe_terminates true). Qed.
+Print Assumptions C10_pipe_terminates.
+
+(* ... and it cannot stop early: while a stage is left, some stage can return (closing its
+   output); so the maximal schedules end with every goroutine gone and the consumer's channel
+   closed *)
+Theorem C10_pipe_progress : forall p,
+  p_src_closed p = true -> p_cancel p = true -> all_stages_done p = false ->
+  exists i p', pstep p (PExit i) = Some p'.
+Proof. exact (pipe_progress true). Qed.
+Print Assumptions C10_pipe_progress.
+
+Theorem C10_pipe_close_needs_cancel : forall tr stages p,
+  prun (init_pipe stages) tr = Some p -> p_src_closed p = true -> p_cancel p = true.
+Proof. exact src_closed_cancelled. Qed.
+Print Assumptions C10_pipe_close_needs_cancel.
+
+(* ---- a single-item subscription ends when the item is removed ----
+   the REMOVE of its id makes PullID return (its channel is closed) and cancels the context of
+   the inner Pull, after which C10_cancel_closes and C10_pipe_terminates apply to it *)
+Theorem C10_pullid_ends_on_remove : forall p i st m id,
+  stage_at p i = Some st -> offer st = Some m ->
+  stage_at p (S i) = Some (StPullID id None) -> m_id m = id -> m_kind m = 3 ->
+  exists p', pstep p (PXfer i) = Some p' /\ stage_at p' (S i) = Some StDone /\ p_cancel p' = true.
+Proof. exact pullid_ends_on_remove. Qed.
+Print Assumptions C10_pullid_ends_on_remove.
+
+(* before /repo 728882a (model pstep_v0): after the REMOVE the consumer's channel is closed,
+   nobody has cancelled, the inner forwarder holds the next change for ever, and no step but a
+   cancel is possible - in particular the bus can never deliver to this listener again, so with
+   backpressure every later Bus.Send(context.TODO()) blocks *)
+Theorem C10_pullid_v0_refuted : exists p,
+  prun_v0 (init_pipe [StFwd [] None; StPullID 3 None]) v0_witness_trace = Some p /\
+  p_cancel p = false /\ input_closed p 2 = true /\ stage_at p 0 = Some (StFwd [] (Some (mkM 3 1 6))) /\
+  (forall a, a <> PCancel -> pstep_v0 p a = None).
+Proof. exact pullid_v0_stuck. Qed.
+Print Assumptions C10_pullid_v0_refuted.
+
+(* ---- non-vacuity ---- *)
 Example C10_nonvacuous_window :
   exists c, run (init 1) [LListen; LRegister 0; LCall 0; LRLock 0; LCancel 0; LWake 0; LLockReq 0]%nat = Some c
             /\ step c (LStop 0%nat) = None /\ step c (LSelListenCtx 0%nat) <> None.
 Proof. exact window_reachable. Qed.
+
+Example C10_nonvacuous_lock_matters :
+  exists c L, run (init 1) [LListen; LRegister 0; LCall 0; LRLock 0; LCancel 0; LWake 0; LLockReq 0]%nat = Some c
+    /\ nth_error (ls c) 0 = Some L
+    /\ panics (set_l c 0%nat (mkL (l_cancel L) true WDone (l_reg L) (l_rcv L) (l_sawclose L) (l_log L))) = true.
+Proof. exact unlocked_stop_panics. Qed.
+
+Example C10_nonvacuous_pullid_fixed : exists p,
+  prun (init_pipe [StFwd [] None; StPullID 3 None]) [PSrc (mkM 3 1 5); PXfer 0; PXfer 1; PSrc (mkM 3 3 0); PXfer 0] = Some p /\
+  p_cancel p = true /\ input_closed p 2 = true /\
+  exists p', prun p [PSrcClose; PExit 0%nat] = Some p' /\ all_stages_done p' = true.
+Proof. exact pullid_fixed_same_schedule. Qed.
